@@ -1,0 +1,11 @@
+//go:build verif
+// +build verif
+
+package atom
+
+// Verification hooks (build tag verif, add-only): read access to unexported state.
+
+// VerifUseFlagName returns the USE-flag name behind the index stored in a UseDependency.
+func VerifUseFlagName(d UseDependency) string {
+	return useFlagIndexToNames[d.UseFlag]
+}
